@@ -99,6 +99,7 @@ def shadow_bytes(on: bool = True) -> None:
         del S.bytes  # type: ignore[attr-defined]
 
 
+_WALKED = False
 _STATE: dict[int, tuple] = {}
 _SCANNED: set[str] = set()
 STATE_MUTATIONS: dict[str, int] = {}
@@ -129,6 +130,23 @@ def reset_caches() -> None:
     repo's modules restored.  State that leaks between calls is therefore only visible to a harness that makes the
     earlier calls itself (the history / warm-up levels), and then it replays; symbolic values of an earlier path can
     never reach a later one."""
+    global _WALKED
+    if not _WALKED:
+        # import every repo module now, so that each is first seen in the state it has before any path ran
+        _WALKED = True
+        import importlib
+        import pkgutil
+
+        try:
+            import proof_generation as _pg
+
+            for mi in pkgutil.walk_packages(_pg.__path__, 'proof_generation.'):
+                try:
+                    importlib.import_module(mi.name)
+                except Exception:
+                    pass
+        except Exception:
+            pass
     for name, m in list(sys.modules.items()):
         if not name.startswith('proof_generation'):
             continue
